@@ -332,6 +332,12 @@ theorem bodySteps_spec (C : Ctx) (S : Shape) (m : Mode) (body : List BodyStep) (
         rw [holdUpd_other _ _ _ (by split <;> decide)]
         exact ih g hc hrest hQ hE
       · exact ih g hc hrest hQ hE
+    | clearPoison c =>
+      simp only [bodySteps]
+      split
+      · rename_i p _
+        exact wp_nop _ _ _ _ _ (Or.inr (Or.inr (Or.inr ⟨p, rfl⟩))) (ih g hc hrest hQ hE)
+      · exact ih g hc hrest hQ hE
 
 /-- outcome marks are ≥ 10 -/
 macro "out10" : tactic =>
